@@ -47,12 +47,10 @@ class TruncateStringFilter:
                 yield ttype, value
                 continue
 
-            if value[:2] == "''":
-                inner = value[2:-2]
-                quote = "''"
-            else:
-                inner = value[1:-1]
-                quote = "'"
+            # The token is delimited by exactly one quote on each side; a
+            # second quote at the start is part of an escaped quote ('').
+            inner = value[1:-1]
+            quote = "'"
 
             if len(inner) > self.width:
                 value = ''.join((quote, inner[:self.width], self.char, quote))
